@@ -651,6 +651,8 @@ def for_over(self, node, st: State, it):
         if items_map is not None:
             mty = items_map.ty
             item = TupleVal([Val(x, elem_ty), Val(mty.opt.val(z3.Select(items_map.term, x)), mty.val)])
+            if getattr(it, "values_only", False):
+                item = item.items[1]
         else:
             item = Val(x, elem_ty)
         for kind, s2, v in bind(self.assign_target(node.target, item, s), lambda s3, _x: self.exec_block(node.body, s3)):
